@@ -96,6 +96,51 @@ def run(tier, seed, opens):
                              'F-C05-address-object-network')
                     except Exception:
                         ok += 1
+    # F: outputs created from a hash + script type, from a public key, and from an HD key object
+    import hashlib as _hl
+    from bitcoinlib.keys import HDKey as _HDKey
+
+    def _h160(b):
+        return _hl.new('ripemd160', _hl.sha256(b).digest()).digest()
+    for net in nets:
+        d = NETWORK_DEFINITIONS[net]
+        for kind, ln, witver in [('p2pkh', 20, 0), ('p2sh', 20, 0), ('p2wpkh', 20, 0), ('p2wsh', 32, 0), ('p2tr', 32, 1)]:
+            payload = bytes(rng.getrandbits(8) | 0x80 for _ in range(ln))
+            script = spec_script(kind, payload, witver)
+            cases += 1
+            try:
+                o = Output(1000, public_hash=payload, script_type=kind, witver=witver, network=net,
+                           encoding='base58' if kind in ('p2pkh', 'p2sh') else 'bech32')
+                if o.lock_script == script:
+                    ok += 1
+                else:
+                    fail('hash->script', {'network': net, 'kind': kind, 'payload': payload.hex()}, o.lock_script.hex(), script.hex())
+            except Exception as e:
+                fail('hash->script', {'network': net, 'kind': kind, 'payload': payload.hex()}, 'raises %r' % e, script.hex())
+        for wt, kind in (('legacy', 'p2pkh'), ('segwit', 'p2wpkh'), ('p2sh-segwit', 'p2sh')):
+            hk = _HDKey.from_seed(bytes(rng.getrandbits(8) for _ in range(32)), network=net, witness_type=wt)
+            pub = hk.public_byte
+            want = spec_script(kind, _h160(pub) if kind != 'p2sh' else _h160(b'\x00\x14' + _h160(pub)), 0)
+            cases += 1
+            try:
+                o = Output(1000, address=hk, network=net)
+                if o.lock_script == want:
+                    ok += 1
+                else:
+                    fail('hdkey->script', {'network': net, 'witness_type': wt, 'public_key': pub.hex()}, o.lock_script.hex(), want.hex())
+            except Exception as e:
+                fail('hdkey->script', {'network': net, 'witness_type': wt}, 'raises %r' % e, want.hex())
+            if wt == 'legacy':
+                cases += 1
+                try:
+                    o = Output(1000, public_key=pub, script_type='p2pkh', network=net)
+                    o2 = Output(1000, public_key=pub, network=net)            # no type given: the library's default destination type is P2WPKH
+                    if o.lock_script == want and o2.lock_script == spec_script('p2wpkh', _h160(pub), 0):
+                        ok += 1
+                    else:
+                        fail('public key->script', {'network': net, 'public_key': pub.hex()}, o.lock_script.hex() + ' / ' + o2.lock_script.hex(), want.hex() + ' / p2wpkh')
+                except Exception as e:
+                    fail('public key->script', {'network': net}, 'raises %r' % e, want.hex())
     # E: segwit addresses whose prefix belongs to NO network the library knows (other chains: grs, vtc, dgb, xyz), and the upper-case form of a
     #    known address used on a different network: never a destination of this transaction's network
     for net in ('bitcoin', 'testnet', 'litecoin'):
